@@ -181,13 +181,17 @@ theorem coreInv_labels (lv : Level) (hlv : LevelOK lv) (labels : List Nat) (hlen
     rw [tab_getD, if_pos hx, aggVec_eq, hlv.lenI]
     rfl
 
-theorem leiden_level (lv : Level) (hlv : LevelOK lv) (res tolOpt : Rat) (coreFuel : Nat) (labels : List Nat)
+theorem leiden_level (lv : Level) (hlv : LevelOK lv) (res tolOpt : Rat) (labels : List Nat)
     (hlen : labels.length = lv.n) (labels1 : List Nat) (inc : Rat)
-    (h : leidenOptimize lv res tolOpt coreFuel labels = some (labels1, inc)) :
+    (h : leidenOptimize lv res tolOpt labels = some (labels1, inc)) :
     0 ≤ inc ∧ (uniqueInverse labels1).length = lv.n ∧
     QL lv res (uniqueInverse labels1) = QL lv res labels + inc := by
-  obtain ⟨h1, h2, -, h4, -⟩ := optimizeCore_spec lv.graph hlv.graphOK res tolOpt (nLabels labels) coreFuel _
-    (coreInv_labels lv hlv labels hlen) labels1 inc h
+  unfold leidenOptimize at h
+  simp only [Option.some.injEq] at h
+  obtain ⟨h1, h2, -, h4, -⟩ := optimizeCoreCapped_spec lv.graph hlv.graphOK res tolOpt (nLabels labels) _
+    (coreInv_labels lv hlv labels hlen)
+  rw [h] at h1 h2 h4
+  simp only at h1 h2 h4
   have hlen1 : labels1.length = lv.n := h4
   refine ⟨h2, by rw [uniqueInverse_length, hlen1], ?_⟩
   have hQ : QL lv res (uniqueInverse labels1) = QL lv res labels1 := by
@@ -216,13 +220,13 @@ theorem leiden_refine (lv : Level) (hlv : LevelOK lv) (res : Rat) (coreFuel : Na
 
 /-! ### the loop -/
 
-theorem leidenLoop_spec (res tolOpt tolAgg : Rat) (nAgg : Int) (coreFuel : Nat) (lv0 : Level) :
+theorem leidenLoop_spec (res tolOpt tolAgg : Rat) (nAgg : Int) (lv0 : Level) :
     ∀ (fuel count : Nat) (lv : Level) (labels memb : List Nat) (incs : List Rat) (rands : List (List Nat))
       (out : FitOut),
       LevelOK lv → labels.length = lv.n → memb.length = lv0.n → (∀ u, u < lv0.n → labOf memb u < lv.n) →
       (∀ c' : Nat → Nat, Q lv.n (adj lv.graph) lv.graph.outW lv.graph.inW res c'
           = Q lv0.n (adj lv0.graph) lv0.graph.outW lv0.graph.inW res (fun u => c' (labOf memb u))) →
-      leidenLoop res tolOpt tolAgg nAgg coreFuel fuel count lv labels memb incs rands = some out →
+      leidenLoop res tolOpt tolAgg nAgg fuel count lv labels memb incs rands = some out →
       ∃ extra : List Rat, out.increases = incs ++ extra ∧ (∀ x ∈ extra, 0 ≤ x) ∧
         out.labels.length = lv0.n ∧ QL lv0 res out.labels = QL lv res labels + extra.sum := by
   intro fuel
@@ -234,11 +238,11 @@ theorem leidenLoop_spec (res tolOpt tolAgg : Rat) (nAgg : Int) (coreFuel : Nat) 
     split at h
     · cases h
     · rename_i labels1 inc hopt
-      obtain ⟨g1, g2, g3⟩ := leiden_level lv hlv res tolOpt coreFuel labels hlen labels1 inc hopt
+      obtain ⟨g1, g2, g3⟩ := leiden_level lv hlv res tolOpt labels hlen labels1 inc hopt
       split at h
       · cases h
       · rename_i refined rest href
-        have hrinv := leiden_refine lv hlv res coreFuel (uniqueInverse labels1) _ refined rest href
+        have hrinv := leiden_refine lv hlv res 0 (uniqueInverse labels1) _ refined rest href
         have hrlen : (uniqueInverse refined).length = lv.n := hrinv.len
         split at h
         · -- the loop stops: the coarse clusters of this aggregation are returned
@@ -293,8 +297,8 @@ theorem leidenLoop_spec (res tolOpt tolAgg : Rat) (nAgg : Int) (coreFuel : Nat) 
 
 /-- **Leiden.fit, exact arithmetic, every oracle.** -/
 theorem leidenFit_spec (kind : Kind) (res tolOpt tolAgg : Rat) (nAgg : Int) (nRow nCol nnz : Nat)
-    (B : Nat → Nat → Rat) (fb : Bool) (coreFuel : Nat) (rands : List (List Nat)) (out : FitOut)
-    (h : leidenFit kind res tolOpt tolAgg nAgg nRow nCol nnz B fb coreFuel rands = .ok (some out)) :
+    (B : Nat → Nat → Rat) (fb : Bool) (outerFuel : Nat) (rands : List (List Nat)) (out : FitOut)
+    (h : leidenFit kind res tolOpt tolAgg nAgg nRow nCol nnz B fb outerFuel rands = .ok (some out)) :
     out.labels.length = (kindAdj kind nRow nCol B fb).1 ∧
     objective kind (kindAdj kind nRow nCol B fb).1 (kindAdj kind nRow nCol B fb).2 res (labOf out.labels)
       = objective kind (kindAdj kind nRow nCol B fb).1 (kindAdj kind nRow nCol B fb).2 res (fun u => u)
@@ -307,7 +311,7 @@ theorem leidenFit_spec (kind : Kind) (res tolOpt tolAgg : Rat) (nAgg : Int) (nRo
     simp only [Except.ok.injEq] at h
     obtain ⟨w, hw, rfl⟩ := preProcess_ok _ _ _ _ _ _ _ hlv
     have hOK := symLevel_levelOK (kindAdj kind nRow nCol B fb).1 (kindAdj kind nRow nCol B fb).2 w.1 w.2
-    obtain ⟨extra, k1, k2, k3, k4⟩ := leidenLoop_spec res tolOpt tolAgg nAgg coreFuel _ _ 0 _
+    obtain ⟨extra, k1, k2, k3, k4⟩ := leidenLoop_spec res tolOpt tolAgg nAgg _ _ 0 _
       (arange (kindAdj kind nRow nCol B fb).1) (arange (kindAdj kind nRow nCol B fb).1) [] rands out hOK
       (by simp [arange, symLevel]) (by simp [arange, symLevel])
       (fun u hu => by
